@@ -83,35 +83,12 @@ def fam_blackhole(rng, i):
     return _nz(p)
 
 
-ATTACKS = {
-    # name -> acceptable transport error codes (RFC 9000 §20.1; PROTOCOL_VIOLATION 0x0a is a permitted generic code §11)
-    "stream-beyond-window": [0x03, 0x0a],
-    "stream-limit": [0x04, 0x0a],
-    "final-size-change": [0x06, 0x0a],
-    "stream-not-opened": [0x05, 0x0a],
-    "stream-wrong-direction": [0x05, 0x0a],
-    "max-stream-data-wrong-direction": [0x05, 0x0a],
-    "max-streams-too-large": [0x07, 0x0a],
-    "reset-final-size-small": [0x06, 0x0a],
-    "conn-beyond-window": [0x03, 0x0a],
-    "handshake-done-from-client": [0x0a],
-    "new-token-from-client": [0x0a],
-    "ncid-retire-gt-seq": [0x07, 0x0a],
-    "unknown-frame": [0x07, 0x0a],
-    "retire-unissued": [0x0a],
-}
+# adversarial-peer catalogue and family: tools/e2e_c04.py (violation classes, RFC error table, scenario cases)
+import e2e_c04  # noqa: E402
 
-
-def fam_attack(rng, i):
-    names = sorted(ATTACKS)
-    name = names[i % len(names)]
-    p = {
-        "seed": rng.randrange(1, 2**40), "attack": name, "attack_at": rng.choice([0, 1, 3, 8]),
-        "bidi": rng.choice([1, 2]), "uni": rng.choice([0, 1]), "size": rng.choice([3000, 20000]), "chunk": 700,
-        "s.bidi_remote": rng.choice([1000, 5000]), "s.data_window": rng.choice([4000, 20000]), "s.max_bidi_remote": rng.choice([2, 5]),
-        "delay_ms": 10, "deadline_ms": 60000, "read_delay_ms": rng.choice([0, 3]),
-    }
-    return _nz(p)
+# name -> acceptable transport error codes (RFC 9000 §20.1 plus the generic codes §11 permits); None = control case
+ATTACKS = {n: (None if c in ("ok", "space") else e2e_c04.error_for(c)) for n, c in e2e_c04.ATTACKS.items()}
+fam_attack = e2e_c04.fam_attack
 
 
 def fam_handshake(rng, i):
